@@ -25,7 +25,8 @@ Local Open Scope N_scope.
    caller, and expire by their own time stamps). *)
 Definition same_state (b1 b2 : bus) : Prop :=
   b_conns b1 = b_conns b2 /\ b_services b1 = b_services b2 /\ Permutation (b_pending b1) (b_pending b2) /\
-  b_next b1 = b_next b2 /\ b_maxnames b1 = b_maxnames b2 /\ b_maxrules b1 = b_maxrules b2 /\ b_maxreplies b1 = b_maxreplies b2.
+  b_next b1 = b_next b2 /\ b_maxnames b1 = b_maxnames b2 /\ b_maxrules b1 = b_maxrules b2 /\ b_maxreplies b1 = b_maxreplies b2 /\
+  b_uidcount b1 = b_uidcount b2 /\ b_maxconns b1 = b_maxconns b2.
 
 Definition same_outcome (r1 r2 : outcome) : Prop :=
   match r1, r2 with
